@@ -511,6 +511,14 @@ func (e *intervalEnv) rangeOf(v ssa.Value, facts ssau.FactSet, seen map[ssa.Valu
 			}
 		}
 	case *ssa.UnOp:
+		if x.Op == token.MUL {
+			if fa, ok := x.X.(*ssa.FieldAddr); ok {
+				if fr, ok := e.fieldStoreRange(fa); ok && fr.within(tr) && !tr.within(fr) {
+					r = fr
+					e.note("every store to this unexported field in the module is in this range")
+				}
+			}
+		}
 		if x.Op == token.SUB {
 			if xr, ok := e.rangeOf(x.X, facts, seen, depth+1); ok {
 				n := ival{new(big.Int).Neg(xr.hi), new(big.Int).Neg(xr.lo)}
@@ -1092,4 +1100,98 @@ func (e *intervalEnv) paramRangeFromCallers(prm *ssa.Parameter) (ival, bool) {
 		return ival{}, false
 	}
 	return *acc, true
+}
+
+// ---------------------------------------------------------------------------
+// field invariants
+
+var fieldRangeCache = map[string]*ival{}
+var fieldRangeBusy = map[string]bool{}
+
+// fieldStoreRange returns the join of the intervals of every value the module
+// stores to the unexported integer field fa addresses (plus the zero value), or
+// false when the field's address is used for anything but loads and stores or
+// the field is exported (code outside the module could set it). It is the
+// type's invariant for that field: whole-struct copies preserve it.
+func (e *intervalEnv) fieldStoreRange(fa *ssa.FieldAddr) (ival, bool) {
+	if e.p == nil || e.callDepth > 6 {
+		return ival{}, false
+	}
+	n := ssau.NamedOf(fa.X.Type())
+	st, ok := ssau.Deref(fa.X.Type()).Underlying().(*types.Struct)
+	if n == nil || !ok || fa.Field >= st.NumFields() {
+		return ival{}, false
+	}
+	fld := st.Field(fa.Field)
+	if fld.Exported() || fld.Embedded() {
+		return ival{}, false
+	}
+	tr, ok := typeRange(fld.Type())
+	if !ok {
+		return ival{}, false
+	}
+	key := n.Obj().Pkg().Path() + "." + n.Obj().Name() + "." + fld.Name()
+	if r, ok := fieldRangeCache[key]; ok {
+		if r == nil {
+			return ival{}, false
+		}
+		return *r, true
+	}
+	if fieldRangeBusy[key] {
+		return ival{}, false
+	}
+	fieldRangeBusy[key] = true
+	defer delete(fieldRangeBusy, key)
+	acc := ival{bi(0), bi(0)}
+	for _, fn := range e.p.Funcs {
+		var fe *intervalEnv
+		for _, b := range fn.Blocks {
+			for _, in := range b.Instrs {
+				fa2, ok := in.(*ssa.FieldAddr)
+				if !ok || fa2.Field != fa.Field || ssau.NamedOf(fa2.X.Type()) == nil || ssau.NamedOf(fa2.X.Type()).Obj() != n.Obj() {
+					continue
+				}
+				for _, ref := range *fa2.Referrers() {
+					switch u := ref.(type) {
+					case *ssa.UnOp:
+						if u.Op != token.MUL {
+							fieldRangeCache[key] = nil
+							return ival{}, false
+						}
+					case *ssa.Store:
+						if u.Addr != ssa.Value(fa2) {
+							fieldRangeCache[key] = nil
+							return ival{}, false
+						}
+						// a copy of the same field of another value of the type keeps the invariant
+						if ld, ok := u.Val.(*ssa.UnOp); ok && ld.Op == token.MUL {
+							if fa3, ok := ld.X.(*ssa.FieldAddr); ok && fa3.Field == fa.Field && ssau.NamedOf(fa3.X.Type()) != nil && ssau.NamedOf(fa3.X.Type()).Obj() == n.Obj() {
+								continue
+							}
+						}
+						if fe == nil {
+							fe = newIntervalEnv(e.p, fn)
+							fe.callDepth = e.callDepth + 1
+						}
+						vr, ok := fe.rangeOf(u.Val, fe.ff.At(u), map[ssa.Value]bool{}, 0)
+						if !ok {
+							fieldRangeCache[key] = nil
+							return ival{}, false
+						}
+						acc = acc.join(vr)
+					case *ssa.DebugRef:
+					default:
+						fieldRangeCache[key] = nil
+						return ival{}, false
+					}
+				}
+			}
+		}
+	}
+	if !acc.within(tr) {
+		fieldRangeCache[key] = nil
+		return ival{}, false
+	}
+	fieldRangeCache[key] = &acc
+	return acc, true
 }
